@@ -107,8 +107,17 @@ def build_function(name, beh, log, is_async=False, pause=True):
         if kind == 'perr':
             raise make_error(beh)
         if kind == 'boom':
-            if beh['exc'] not in EXC_TYPES:
+            if beh['exc'] not in EXC_TYPES and beh['exc'] not in ('CallMismatch', 'KwMismatch', 'HugeInt'):
                 _late_exc_types()
+            if beh['exc'] == 'CallMismatch':
+                # the body itself makes a call that python refuses ("helper() takes 1 positional argument but 3 were given")
+                def helper_S3CR3T(only_one):
+                    return only_one
+                helper_S3CR3T(1, 2, 3)
+            if beh['exc'] == 'KwMismatch':
+                def helper_S3CR3T(only_one):
+                    return only_one
+                helper_S3CR3T(only_one=1, unexpected_S3CR3T=2)
             if beh['exc'] == 'HugeInt':
                 raise OverflowError(10 ** 5000)          # rendering this exception exceeds the int -> str digit limit
             raise EXC_TYPES[beh['exc']]('%s %s' % (MARK, beh['exc']))
